@@ -140,6 +140,38 @@ def _translate_stmt(st, aliases, where):
     # docstring
     if isinstance(st, ast.Expr) and isinstance(st.value, ast.Constant) and isinstance(st.value.value, str):
         return []
+    # statements without an effect on what the model tracks: `pass`, logging calls
+    if isinstance(st, ast.Pass):
+        return []
+    if isinstance(st, ast.Expr) and isinstance(st.value, ast.Call) and isinstance(st.value.func, ast.Attribute) \
+            and st.value.func.attr in ("debug", "info", "warning", "error", "exception", "critical", "log"):
+        base = st.value.func.value
+        if (isinstance(base, ast.Name) and base.id in ("logger", "logging")) or _is_self_attr(base, "logger") \
+                or _is_self_attr(base, "_logger"):
+            return []
+    # try: … finally: …  (no handlers): the statements of both blocks in order
+    if isinstance(st, ast.Try) and not st.handlers and not st.orelse:
+        ops = []
+        for b in [*st.body, *st.finalbody]:
+            ops += _translate_stmt(b, aliases, where)
+        return ops
+    # the TunnelEndpoint's back reference:  if … self.endpoint.tunnel_community is self: self.endpoint.set_tunnel_community(None)
+    if isinstance(st, ast.If) and not st.orelse and len(st.body) == 1:
+        tests = st.test.values if isinstance(st.test, ast.BoolOp) and isinstance(st.test.op, ast.And) else [st.test]
+        guards_ref = any(isinstance(t, ast.Compare) and len(t.ops) == 1 and isinstance(t.ops[0], (ast.Is, ast.Eq))
+                         and _is_self_attr(t.left, "endpoint", "tunnel_community")
+                         and isinstance(t.comparators[0], ast.Name) and t.comparators[0].id == "self" for t in tests)
+        others_ok = all((isinstance(t, ast.Compare) and _is_self_attr(t.left, "endpoint", "tunnel_community"))
+                        or (isinstance(t, ast.Call) and isinstance(t.func, ast.Name) and t.func.id in ("isinstance", "hasattr"))
+                        for t in tests)
+        b = st.body[0]
+        clears = (isinstance(b, ast.Expr) and isinstance(b.value, ast.Call)
+                  and _is_self_attr(b.value.func, "endpoint", "set_tunnel_community") and len(b.value.args) >= 1
+                  and isinstance(b.value.args[0], ast.Constant) and b.value.args[0].value is None) \
+            or (isinstance(b, ast.Assign) and len(b.targets) == 1 and _is_self_attr(b.targets[0], "endpoint", "tunnel_community")
+                and isinstance(b.value, ast.Constant) and b.value.value is None)
+        if guards_ref and others_ok and clears:
+            return [".clearEndpointRef"]
     # await X
     if isinstance(st, ast.Expr) and isinstance(st.value, ast.Await):
         call = st.value.value
@@ -177,8 +209,15 @@ def _translate_stmt(st, aliases, where):
     # while self.bootstrappers: b = self.bootstrappers.pop(); b.unload()
     if isinstance(st, ast.While) and _is_self_attr(st.test, "bootstrappers"):
         body = " ; ".join(_src(b) for b in st.body)
-        if ".pop()" in body and ".unload()" in body and len(st.body) == 2:
+        if ".pop" in body and ".unload()" in body and len(st.body) <= 3:
             return [".unloadBootstrappers"]
+    # for b in self.bootstrappers: b.unload()
+    if isinstance(st, ast.For) and not st.orelse and "self.bootstrappers" in _src(st.iter) and isinstance(st.target, ast.Name) \
+            and len(st.body) == 1 and _src(st.body[0]).strip() == f"{st.target.id}.unload()":
+        return [".unloadBootstrappers"]
+    # self.bootstrappers.clear() / self.bootstrappers = []  after such a loop
+    if _src(st).strip() in ("self.bootstrappers.clear()", "self.bootstrappers = []"):
+        return []
     # for exit_socket in list(self.exit_sockets.values()): await exit_socket.close()
     if isinstance(st, ast.For) and len(st.body) == 1 and not st.orelse and isinstance(st.target, ast.Name) \
             and "self.exit_sockets" in _src(st.iter) and isinstance(st.body[0], ast.Expr) \
